@@ -19,6 +19,54 @@ def fasta(rows):
     return "".join(">%s\n%s\n" % r for r in rows)
 
 
+# ---- the regular-expression subset of lean/Gv/Model/Regex.lean -----------------------------------------------------
+# literal characters, `.`, `\d`, escaped punctuation, classes with members and ranges (also negated), the greedy
+# quantifiers `*` `+` `?`, `^` in front, `$` at the end, at most one capture group (not nested, not quantified)
+RE_CLASSES = ["[-N]", "[^ACGT-]", "[N-]", "[0-9]", "[a-z]", "[A-Z]", "[ACGT]", "[^-]", "[^0-9]", "[a-zA-Z]", "[s_]", "[0-3]", "[^ACGT]", "[NRY-Z]", "[acgt]", "\\d", "."]
+RE_TEMPLATES = ["", "X", "_", "$1", "${1}", "$0", "x$1y", "${1}y", "$1$1", "$1-", "<$0>", "$$", "$", "a$", "${1", "$2", "$01", "$1_", "N", "--", "n$0", "$name", "${0}${1}"]
+# patterns that Go refuses to compile (the four ways the model recognises) and a few outside the subset (answered `unmodelled`)
+RE_BAD = ["(", "[a", "*a", "a)", "(a", "+", "?x", "[0-9", "s(", "x[^"]
+RE_OUTSIDE = ["a|b", "(a)(b)", "(a)+", "a{2}", "a*?", "(?i)s", "\\w+", "[a--]", "^*", "a$b", "((a))", "[]a]", "\\"]
+
+
+def rand_regex(rng, lits, maxatoms=4):
+    """a pattern of the subset over the literal characters `lits`"""
+    def atom():
+        k = rng.random()
+        if k < 0.55:
+            c = rng.choice(lits)
+            return ("\\" + c) if c in ".[]()*+?^$|\\" else c
+        return rng.choice(RE_CLASSES)
+
+    def item():
+        return atom() + rng.choice(["", "", "", "+", "*", "?"])
+    n = rng.randint(0 if rng.random() < 0.1 else 1, maxatoms)
+    items = [item() for _ in range(n)]
+    if rng.random() < 0.45:
+        a = rng.randint(0, n)
+        b = rng.randint(a, n)
+        items = items[:a] + ["("] + items[a:b] + [")"] + items[b:]
+    return ("^" if rng.random() < 0.3 else "") + "".join(items) + ("$" if rng.random() < 0.3 else "")
+
+
+def hexz(s):
+    return s.encode().hex() or "-"
+
+
+def regex_cases(rng, count):
+    """`regexsub`: Go's regexp against the model of the subset, on names and on sequences"""
+    for _ in range(count):
+        if rng.random() < 0.5:
+            lits = "s0123456789_ex."
+            inp = rng.choice(["s%d" % rng.randint(0, 12), "name_s%d" % rng.randint(0, 9), "Seq%04d" % rng.randint(0, 20), "x.y_s1", "", "s", "e_e_", "s10s1", "a b", "s1\ns2"])
+        else:
+            lits = "ACGTN-acgt"
+            inp = "".join(rng.choice("ACGTN-acgtRY") for _ in range(rng.randint(0, 14)))
+        k = rng.random()
+        pat = rng.choice(RE_BAD) if k < 0.06 else rng.choice(RE_OUTSIDE) if k < 0.1 else rand_regex(rng, lits)
+        yield Case("regexsub", [hexz(pat), hexz(rng.choice(RE_TEMPLATES)), hexz(inp)], True, "regexsub" + ("-bad" if k < 0.06 else "-outside" if k < 0.1 else ""))
+
+
 def cases(rng, which, count):
     for _ in range(count):
         rows = alignment(rng)
@@ -60,9 +108,24 @@ def cases(rng, which, count):
                 se = esc(fasta(er))
                 fl = [f for f in ("--ignore-gaps", "--ignore-n") if rng.random() < 0.4]
                 yield Case("cli_lib", [se, "stats", "maxchar"] + fl, True, "cli-stats-maxchar")
-                for sub in ("nseq", "length", "taxa", "gaps"):
+                for sub in ("nseq", "length", "taxa", "gaps", "nalign"):
                     yield Case("cli_lib", [se, "stats", sub], True, "cli-stats-" + sub)
                 yield Case("cli_lib", [se, "diff"], True, "cli-diff")
+            elif w == "diff":
+                # `diff` with its flags: rows derived from the first one (so that pairs repeat), `.` among the characters
+                # (restored by `--reverse`), gaps on either side (`--no-gaps`), one row only, flags in any order
+                base = "".join(rng.choice("ACGT-") for _ in range(L))
+                dr = [(nm, "".join((rng.choice("ACGTacN-.") if rng.random() < 0.3 else b) for b in base)) for nm, _ in rows]
+                if rng.random() < 0.1:
+                    dr = dr[:1]
+                if rng.random() < 0.5:
+                    dr[0] = (dr[0][0], "".join(rng.choice("ACGT.-") if rng.random() < 0.2 else b for b in dr[0][1]))
+                if rng.random() < 0.08:
+                    dr = [dr[0]] + [(nm, dr[0][1]) for nm, _ in dr[1:]]            # nothing differs
+                k = rng.random()
+                fl = ["--counts"] if k < 0.3 else ["--counts", "--no-gaps"] if k < 0.55 else ["--reverse"] if k < 0.8 else ["--no-gaps"] if k < 0.85 else ["--counts", "--reverse"] if k < 0.92 else []
+                rng.shuffle(fl)
+                yield Case("cli_lib", [esc(fasta(dr)), "diff"] + fl, True, "cli-diff" + "".join(sorted(fl)))
             elif w == "sites":
                 ss = [str(rng.randint(-1, L)) for _ in range(rng.randint(1, 4))]
                 yield Case("cli_lib", [st, "subsites"] + ss, True, "cli-subsites")
@@ -82,6 +145,41 @@ def cases(rng, which, count):
                 if rng.random() < 0.4:
                     fl.append(rng.choice(["-r", "--reverse"]))
                 yield Case("cli_lib", [st, "subseq"] + fl, True, "cli-subseq-general")
+            elif w == "subsites":
+                # `subsites` with every flag: sites on the command line or in a file (one per line; a malformed line, an absent
+                # file, no site at all), on the alignment or on an ungapped reference row, the complement, the informative sites
+                gr = [(nm, "".join(rng.choice("ACGT-" + "-" * rng.choice([0, 3])) for _ in range(L))) for nm, _ in rows]
+                if rng.random() < 0.4:
+                    cols = [rng.choice(["A" * n, "".join(rng.choice("AC") for _ in range(n)), "".join(rng.choice("ACGT-N") for _ in range(n))]) for _ in range(L)]
+                    gr = [(rows[i][0], "".join(c[i] for c in cols)) for i in range(n)]
+                sg = esc(fasta(gr))
+                sites = [str(rng.randint(0, L - 1) if rng.random() < 0.93 else rng.choice([L, L + 3])) for _ in range(rng.randint(1, 5))]
+                fl = []
+                if rng.random() < 0.45:
+                    fl += ["--ref-seq", rng.choice([r[0] for r in gr] + (["nope"] if rng.random() < 0.2 else []))]
+                if rng.random() < 0.45:
+                    fl.append(rng.choice(["-r", "--reverse"]))
+                k = rng.random()
+                if k < 0.2:
+                    fl.append("--informative")
+                    if rng.random() < 0.5:
+                        fl = fl + sites
+                    yield Case("cli_lib", [sg, "subsites"] + fl, True, "cli-subsites-informative")
+                elif k < 0.6:
+                    a = rng.randint(0, len(sites))
+                    argv = sites[:a] + fl + sites[a:]
+                    if rng.random() < 0.04:
+                        argv = fl
+                    yield Case("cli_lib", [sg, "subsites"] + argv, True, "cli-subsites-flags")
+                else:
+                    txt = "|".join(sites) + rng.choice(["|", "|", ""])
+                    q = rng.random()
+                    if q < 0.05:
+                        txt = rng.choice(["", "x|", "1||2|", "1 |"])
+                    fl += ["--sitefile", "sites.txt" if rng.random() < 0.95 else "absent.txt"]
+                    if rng.random() < 0.3:
+                        fl = [str(rng.randint(0, L - 1))] + fl                      # ignored
+                    yield Case("cli_libf", [sg, "sites.txt=" + txt, "subsites"] + fl, True, "cli-subsites-file")
             elif w == "split":
                 # `split --partition`: a partition file (RAxML style) covering the sites with 1-4 partitions given as
                 # runs, single sites and strided ranges; sometimes a site is left out, given twice or beyond the end
@@ -453,6 +551,44 @@ def cases(rng, which, count):
                 yield Case("cli_lib", [sb, "subset"] + pick + rv, True, "cli-subset-names")
                 idx = [str(i) for i in rng.sample(range(len(big) + 2), rng.randint(1, min(4, len(big))))]
                 yield Case("cli_lib", [sb, "subset", "--indices"] + idx + rv, True, "cli-subset-indices")
+                # `subset -e`: the arguments are regular expressions (modelled subset), a row is kept when one matches;
+                # together with `--indices` (integers are converted first); an expression that does not compile
+                pats = []
+                for _ in range(rng.randint(1, 3)):
+                    k = rng.random()
+                    pats.append(rng.choice(RE_BAD) if k < 0.05 else rng.choice(["^s[0-2]$", "x", "^x1", "1$", "[3-5]", "s1.*", "^s", "x[0-9][0-9]", "(s|x)", "^.1$", "0", "12"]) if k < 0.6
+                                else rand_regex(rng, "sx0123456789", 3))
+                pats = [q for q in pats if q and not q.startswith("-")]
+                if pats:
+                    fl = [rng.choice(["-e", "--regexp"])] + pats + rv
+                    if rng.random() < 0.15:
+                        fl.append("--indices")
+                    if rng.random() < 0.3:
+                        rng.shuffle(fl)
+                    yield Case("cli_lib", [sb, "subset"] + fl, True, "cli-subset-regexp")
+                # `subset -f <file>`: names / indices / expressions read from a file, one per line and / or comma separated
+                # (the names on the command line are then ignored); an absent file; an empty line with `--indices`
+                k = rng.random()
+                if k < 0.5:
+                    items, fl = rng.sample(names, rng.randint(1, min(4, len(names)))) + (["nope"] if rng.random() < 0.3 else []), []
+                elif k < 0.75:
+                    items, fl = [str(i) for i in rng.sample(range(len(big) + 2), rng.randint(1, min(4, len(big))))] + (["-1"] if rng.random() < 0.1 else []), ["--indices"]
+                else:
+                    items, fl = [rng.choice(["^s[0-2]$", "x", "^x1", "1$", "[3-5]", "s1.*", "^s", "0", "(", "x[0-9][0-9]"]) for _ in range(rng.randint(1, 2))], [rng.choice(["-e", "--regexp"])]
+                txt = ""
+                for j, it in enumerate(items):
+                    txt += it + (rng.choice([",", "|"]) if j + 1 < len(items) else rng.choice(["", "|", "|"]))
+                if rng.random() < 0.06:
+                    txt += "|"
+                fl = fl + rv + [rng.choice(["-f", "--name-file"]), "names.txt" if rng.random() < 0.95 else "absent.txt"]
+                if rng.random() < 0.3:
+                    rng.shuffle(fl)
+                    fl = [x for x in fl if x not in ("names.txt", "absent.txt")]
+                    i = max(fl.index(x) for x in fl if x in ("-f", "--name-file"))
+                    fl.insert(i + 1, "names.txt")
+                if rng.random() < 0.3:
+                    fl = [rng.choice(names)] + fl
+                yield Case("cli_libf", [sb, "names.txt=" + txt, "subset"] + fl, True, "cli-subset-file" + ("".join(x for x in fl if x in ("--indices",)) or ""))
             elif w == "rename":
                 odd = [("%s%s" % (rng.choice(["a b", "x(1)", "t;u", "p:q", "n,m", "[k]", "ok"]), nm), sq) for nm, sq in rows]
                 yield Case("cli_lib", [esc(fasta(odd)), "rename", "--clean-names"], True, "cli-rename-clean")
@@ -464,12 +600,75 @@ def cases(rng, which, count):
                 rev = rng.random() < 0.4
                 mp = "|".join(("%s~%s" % (b, a)) if rev else ("%s~%s" % (a, b)) for a, b in zip(keys, tg)) + "|"
                 yield Case("cli_libf", [st, "m.txt=" + mp, "rename", "-m", "m.txt"] + (["-r"] if rev else []), True, "cli-rename-map")
+                # `rename -e <regexp> -b <replacement> [-m <map file>]`: expressions of the modelled subset of Go's regexp,
+                # every template form; an expression that does not compile; `-e` without `-b`; names made equal
+                k = rng.random()
+                pat = rng.choice(RE_BAD) if k < 0.06 else rng.choice(["s", "^s", "[0-9]+$", "s([0-9]+)", "^(.)", "(s)", ".", "[0-9]", "\\d+", "^s[0-3]$"]) if k < 0.4 else rand_regex(rng, "s0123456789")
+                tm = rng.choice(RE_TEMPLATES) if rng.random() < 0.7 else rng.choice(["X", "n_$1", "${1}_x", "t$0"])
+                e = rng.choice(["-e", "--regexp"])
+                b = rng.choice(["-b", "--replace"])
+                groups = [[e, pat], [b, tm]]
+                q = rng.random()
+                if q < 0.06:
+                    groups = [[e, pat]]
+                withmap = rng.random() < 0.5
+                if withmap:
+                    groups.append([rng.choice(["-m", "--map-file"]), rng.choice(["map.txt", "m.tsv"])])
+                rng.shuffle(groups)
+                fl = [x for g in groups for x in g]
+                if not any(x.startswith("-") and x not in ("-e", "-b", "-m", "--regexp", "--replace", "--map-file") for x in fl) and "" not in fl:
+                    if withmap:
+                        yield Case("cli_libf", [st, "_", "rename"] + fl, True, "cli-rename-regexp-map")
+                    else:
+                        yield Case("cli_lib", [st, "rename"] + fl, True, "cli-rename-regexp")
             elif w == "replace":
                 o = rng.choice(["A", "AC", "-", "N", "a", "GT", "--"])
                 nw = rng.choice(["T", "GG", "-", "N", "tt", "--"])
                 if len(o) != len(nw) and rng.random() < 0.7:
                     nw = (nw * 2)[:len(o)]
                 yield Case("cli_lib", [st, "replace", "-s", o, "-n", nw], True, "cli-replace")
+                # `replace -e`: `--old` a regular expression of the modelled subset, `--new` a template; replacements that keep
+                # the length (a class for a character, `$0`, `$1` of a whole-match group) and ones that do not (refused);
+                # flags short or long, in any order; `--old` or `--new` left out (refused)
+                k = rng.random()
+                if k < 0.45:
+                    pat, tm = rng.choice([("[acgt]", "N"), ("[^ACGT-]", "N"), ("N", "-"), ("^-", "N"), ("-$", "N"), (".", "X"), ("(.)", "$1"), ("([ACGT])", "${1}"), ("[RY]", "$0"),
+                                          ("A[CG]", "NN"), ("^(..)", "$1"), ("-+", "-"), ("^-+", "N"), ("[a-z]", "$0"), ("\\.", "-"), ("A+", "A")])
+                elif k < 0.5:
+                    pat, tm = rng.choice(RE_BAD), "N"
+                else:
+                    pat, tm = rand_regex(rng, "ACGTN-acgt", 3), rng.choice(["N", "-", "$0", "$1", "NN", "", "${1}", "x$1y", "$"])
+                groups = [[rng.choice(["-e", "--regexp"])], [rng.choice(["-s", "--old"]), pat], [rng.choice(["-n", "--new"]), tm]]
+                q = rng.random()
+                if q < 0.08:
+                    groups.pop(rng.choice([1, 2]))
+                elif q < 0.2:
+                    groups.pop(0)                               # the same strings taken literally
+                rng.shuffle(groups)
+                fl = [x for g in groups for x in g]
+                if "" not in fl and not tm.startswith("-") and not pat.startswith("-"):
+                    yield Case("cli_lib", [st, "replace"] + fl, True, "cli-replace-regexp" if q >= 0.2 or q < 0.08 else "cli-replace-flags")
+            elif w == "replace-file":
+                # `replace -f <file>`: name, site, character per line; comments; further columns; malformed lines, sites outside,
+                # absent names, an absent file
+                names = [r[0] for r in rows]
+                lines = []
+                for _ in range(rng.randint(0, 5)):
+                    nm = rng.choice(names) if rng.random() < 0.95 else "nope"
+                    site = str(rng.randint(0, L - 1)) if rng.random() < 0.93 else rng.choice(["-1", str(L), "x", ""])
+                    ch = rng.choice(["A", "N", "-", "t", "XY", "*"])
+                    ln = "%s~%s~%s" % (nm, site, ch)
+                    if rng.random() < 0.1:
+                        ln += "~comment"
+                    if rng.random() < 0.04:
+                        ln = rng.choice(["%s~%s" % (nm, site), nm, ""])
+                    lines.append(ln)
+                    if rng.random() < 0.15:
+                        lines.append("#" + rng.choice(["", " a comment", "s0~0~A"]))
+                txt = "".join(l + "|" for l in lines)
+                if lines and rng.random() < 0.15:
+                    txt = txt[:-1]
+                yield Case("cli_libf", [st, "pos.txt=" + txt, "replace", rng.choice(["-f", "--posfile"]), "pos.txt" if rng.random() < 0.95 else "absent.txt"], True, "cli-replace-posfile")
             elif w == "concat":
                 names = [r[0] for r in rows]
                 L2 = rng.randint(1, 8)
@@ -481,6 +680,45 @@ def cases(rng, which, count):
                     yield Case("cli_libf", [st, "o.fa=" + esc(fasta(other)), "concat", "o.fa"] + fl, True, "cli-concat")
                 ap = [(rng.choice(names + ["n1", "n2", "n3"]), "".join(rng.choice(SYM) for _ in range(rng.choice([L, L, L, L + 1])))) for _ in range(rng.randint(1, 3))]
                 yield Case("cli_libf", [st, "o.fa=" + esc(fasta(ap)), "append", "o.fa"], True, "cli-append")
+                # several files: `concat a.fa b.fa c.fa [-l log]` (also without stdin: `-i none`), `append a.fa b.fa`
+                k = rng.randint(2, 3)
+                fns = ["a.fa", "b.fasta", "c_3.fa"][:k]
+                parts = []
+                for fn in fns:
+                    Lk = rng.randint(1, 6)
+                    on = rng.sample(names, rng.randint(1, len(names))) + (["extra"] if rng.random() < 0.4 else []) + (["e2"] if rng.random() < 0.2 else [])
+                    rng.shuffle(on)
+                    parts.append((fn, [(nm, "".join(rng.choice(SYM) for _ in range(Lk))) for nm in on]))
+                if rng.random() < 0.07:
+                    fn, pr = parts[-1]
+                    parts[-1] = (fn, pr + [("ragged", pr[0][1] + "A")])                  # not an alignment
+                spec = ";;".join("%s=%s" % (fn, esc(fasta(pr))) for fn, pr in parts)
+                order = list(fns)
+                if rng.random() < 0.3:
+                    rng.shuffle(order)
+                if rng.random() < 0.1:
+                    order.append(order[0])                                              # a file twice
+                fl = list(order)
+                if rng.random() < 0.6:
+                    lg = [rng.choice(["-l", "--log"]), "log.txt"]
+                    fl = rng.choice([lg + fl, fl + lg, fl[:1] + lg + fl[1:]])
+                if rng.random() < 0.3:
+                    fl = ["-i", "none"] + fl
+                if rng.random() < 0.05:
+                    fl.append("absent.fa")
+                yield Case("cli_libf", [st, spec, "concat"] + fl, True, "cli-concat-multi" + ("-nostdin" if "-i" in fl else ""))
+                aparts = []
+                for fn in fns:
+                    aparts.append((fn, [(rng.choice(names + ["n1", "n2", "n3", "n4", "n5"]), "".join(rng.choice(SYM) for _ in range(rng.choice([L, L, L, L, L, L + 1])))) for _ in range(rng.randint(1, 3))]))
+                aspec = ";;".join("%s=%s" % (fn, esc(fasta(pr))) for fn, pr in aparts)
+                yield Case("cli_libf", [st, aspec, "append"] + order + (["absent.fa"] if rng.random() < 0.04 else []), True, "cli-append-multi")
+            elif w == "sort-more":
+                rr = list(rows)
+                rng.shuffle(rr)
+                rr = [("%s%s" % (rng.choice("bAaZ_"), nm), s) for nm, s in rr]
+                yield Case("cli_libf", [esc(fasta(rr)), "_", "sort", "-o", rng.choice(["sorted.fa", "out.txt"])], True, "cli-sort-output")
+                sq = [(nm, s[:rng.randint(1, len(s))]) for nm, s in rr]
+                yield Case("cli_lib", [esc(fasta(sq)), "sort", "--unaligned"], True, "cli-sort-unaligned")
             elif w == "cleanseqs":
                 cut = rng.choice(["0", "0.25", "0.5", "0.75", "1", "0.1", "0.3"])
                 fl = []
